@@ -74,6 +74,65 @@ def client(port, together, split_at=None):
         s.close()
 
 
+PULLED = [0]
+NROWS = 40000
+
+
+class StreamSession(Session):
+    """a result that never suspends: 40000 rows of 1000 bytes, pulls counted"""
+
+    async def query(self, expression, sql, attrs):
+        async def rows():
+            for i in range(NROWS):
+                PULLED[0] += 1
+                yield ("x" * 1000,)
+        return rows(), ["c"]
+
+
+def stalled_client(port, tls):
+    """log in (over TLS or in the clear), ask for the big result, then do not read for 1.5 s"""
+    s = socket.create_connection(("127.0.0.1", port))
+    s.settimeout(5)
+    try:
+        s.recv(4096)
+        if tls:
+            ctx = ssl.SSLContext(ssl.PROTOCOL_TLS_CLIENT)
+            ctx.check_hostname = False
+            ctx.verify_mode = ssl.CERT_NONE
+            s.sendall(cl.frame(cl.ssl_request(), 1))
+            time.sleep(0.3)
+            s = ctx.wrap_socket(s)
+            s.sendall(cl.frame(cl.handshake_response(user=b"u", caps=cl.BASE_CAPS | cl.CLIENT_SSL), 2))
+        else:
+            s.sendall(cl.frame(cl.handshake_response(user=b"u"), 1))
+        s.recv(4096)
+        PULLED[0] = 0
+        s.sendall(cl.frame(bytes([cl.COM_QUERY]) + b"SELECT c FROM t", 0))
+        time.sleep(1.5)
+        return PULLED[0]
+    except Exception as e:  # noqa
+        return "probe failed: " + type(e).__name__
+    finally:
+        try:
+            s.close()
+        except Exception:  # noqa
+            pass
+
+
+async def backpressure():
+    sc = ssl.SSLContext(ssl.PROTOCOL_TLS_SERVER)
+    sc.load_cert_chain(CERT, KEY)
+    srv = MysqlServer(session_factory=StreamSession, ssl=sc)
+    await srv.start_server(port=0, host="127.0.0.1")
+    port = srv.sockets()[0].getsockname()[1]
+    loop = asyncio.get_running_loop()
+    res = dict(rows=NROWS)
+    res["plain_stalled_pulled"] = await loop.run_in_executor(None, stalled_client, port, False)
+    res["tls_stalled_pulled"] = await loop.run_in_executor(None, stalled_client, port, True)
+    srv.close()
+    print("@@" + json.dumps(res))
+
+
 async def main():
     sc = ssl.SSLContext(ssl.PROTOCOL_TLS_SERVER)
     sc.load_cert_chain(CERT, KEY)
@@ -87,4 +146,4 @@ async def main():
     srv.close()
     print("@@" + json.dumps(res))
 
-asyncio.run(main())
+asyncio.run(backpressure() if sys.argv[1:] == ["backpressure"] else main())
